@@ -123,10 +123,48 @@ def r_update_admin(ctx, cfg):
                sample="contract_data with {admin: validated new_admin | None}")
         ctx.ob("C12.R2", key, "saved-under-looked-up-address", contains(addr, lambda x: x[0] == "call" and x[1].endswith("Api::addr_validate") and is_param(x[2][1], "contract_addr")),
                "record saved under %s" % fmt(addr)[:100], fn=f, sample="addr_validate(contract_addr)?")
-    # the new admin is validated
-    clos = [g for g in F.lexical(key) if g.kind == "closure"]
-    ok = len(clos) == 1 and contains(P.ret(clos[0]), lambda x: x[0] == "call" and x[1].endswith("Api::addr_validate"))
-    ctx.ob("C12.R2", key, "new-admin-validated", ok, "the new admin address is not validated", fn=f, sample="new_admin.map(|a| api.addr_validate(&a))")
+    # the new admin is validated: in the value stored as `admin`, the caller-supplied string occurs only as the argument of
+    # addr_validate (`new_admin.map(|a| api.addr_validate(&a)).transpose()?` and the `match` form have the same origin)
+    def _unvalidated(o, under=False):
+        o0 = o
+        k = o[0]
+        if k == "param":
+            return o[2] == "new_admin" and not under
+        if k == "call":
+            u = under or o[1].endswith("Api::addr_validate")
+            return any(_unvalidated(a, u) for a in o[2])
+        if k == "vp":
+            return _unvalidated(o[2], under)
+        if k in ("agg", "closure"):
+            return any(_unvalidated(v, under) for f_, v in o[2])
+        if k == "multi":
+            return any(_unvalidated(x, under) for x in o[1])
+        if k == "upd":
+            return _unvalidated(o[1], under) or any(_unvalidated(v, under) for p_, v in o[2])
+        if k in ("ok", "err", "some", "discr", "index"):
+            return _unvalidated(o[1], under)
+        if k in ("field", "variant"):
+            return _unvalidated(o[1], under)
+        if k == "bound":
+            return _unvalidated(o[2], under)
+        if k in ("binop",):
+            return _unvalidated(o[2], under) or _unvalidated(o[3], under)
+        if k in ("unop", "cast"):
+            return _unvalidated(o[2], under)
+        if k == "mutby":
+            return any(_unvalidated(a, under) for a in o[2])
+        return False
+    ok = False
+    for f2, bid2, t2 in q.all_calls(F, "wasm::WasmKeeper::save_contract"):
+        if f2.key != key:
+            continue
+        rec2 = P.call_args(f2, t2, bid2)[3]
+        while rec2[0] == "vp":
+            rec2 = rec2[2]
+        if rec2[0] == "upd":
+            nv = [v for p, v in rec2[2] if p == ("admin",)]
+            ok = len(nv) == 1 and contains(nv[0], lambda x: x[0] == "call" and x[1].endswith("Api::addr_validate")) and not _unvalidated(nv[0])
+    ctx.ob("C12.R2", key, "new-admin-validated", ok, "the new admin address is stored without passing through addr_validate", fn=f, sample="Some(api.addr_validate(&a)?) | None")
     # callers: UpdateAdmin passes Some(admin), ClearAdmin passes None, both with the message's contract_addr and the sender
     ek = W + "execute_wasm"
     e = ctx.need_fn("C12.R1", ek)
